@@ -812,6 +812,8 @@ func verifDriverMain() {
 				continue
 			}
 			reply("ok " + r.status())
+		case w[0] == "log.run":
+			reply(verifLogRun(w))
 		case w[0] == "term.new" && len(w) == 1:
 			// the monitor without the process-wide parts of newTermMonitor (signal.Notify,
 			// stdin/ppid watchers): same channels, same zero count
